@@ -99,7 +99,7 @@ class Probe:
 
     def _at(self, phase):
         if phase not in self.caps:
-            self.caps[phase] = self.rp.project(self.states.get(phase) or self.states['any'])
+            self.caps[phase] = self.rp.project(self.states.get(phase) or self.states['any'], 'last')
         if self.fail_at == phase:
             raise ProbeFailure(phase)
 
@@ -248,7 +248,7 @@ class BlobReplayer:
         for b in list(self.handles):
             if b not in keep:
                 del self.handles[b]
-        gc.collect()
+        gc.collect(1)
 
     # ------------------------------------------------------------------ projection
     def _walk_blobs(self, top):
@@ -328,7 +328,7 @@ class BlobReplayer:
             self.tmo.abort()
             c.close()
 
-    def project(self, state, full=True):
+    def project(self, state, full='all'):
         """The model-level state of the real objects.  `state` (the TLC state the projection will be compared
         with) only says which questions to ask: the snapshot points and the blobs c1 has touched."""
         self._learn_oids(self._newb)
@@ -347,8 +347,12 @@ class BlobReplayer:
         if self.flavour == 'mixin':
             real['old'] = self._walk_blobs(self.blob_dir + '.old')[0]
         if full:
-            real['snap'] = self.read_snapshots(sorted(_fn(state['osnap'])))
-            real['iter'] = self.read_iter()
+            pts = sorted(_fn(state['osnap']))
+            # all snapshots where records or committed files can have changed; inside a commit the newest one
+            # (historical connection at the last tid) next to the fresh connection
+            real['snap'] = self.read_snapshots(pts if full == 'all' else pts[-1:])
+            if full == 'all':
+                real['iter'] = self.read_iter()
         real['cview'] = self.read_cview(sorted(_fn(state['oview'])))
         return real
 
@@ -391,7 +395,8 @@ class BlobReplayer:
         snap = {t: _row(r) for t, r in _fn(s['osnap']).items()}
         exp['latest'] = self._row_md5(snap[max(snap)])
         if full:
-            exp['snap'] = {t: self._row_md5(r) for t, r in snap.items()}
+            exp['snap'] = {t: self._row_md5(r) for t, r in snap.items() if full == 'all' or t == max(snap)}
+        if full == 'all':
             exp['iter'] = tuple({'tid': e['tid'], 'recs': frozenset(e['recs'])} for e in s['oiter'])
         exp['cview'] = {b: self.md5(c) for b, c in _fn(s['oview']).items()}
         return exp
@@ -400,7 +405,7 @@ class BlobReplayer:
         return {o: (v[0] if o == P_OID else self.md5(v)) for o, v in row.items()}
 
     def compare(self, state, real):
-        exp = self.expected(state, 'snap' in real)
+        exp = self.expected(state, 'all' if 'iter' in real else 'snap' in real)
         out = []
         for k in ('files', 'dirty', 'old', 'latest', 'snap', 'iter', 'cview'):
             if k in exp:
@@ -487,7 +492,11 @@ class BlobReplayer:
     def _end_of_txn(self):
         self.sps = []
         self.handles.clear()
-        gc.collect()
+        # A Blob object activated while a stale savepoint file shadowed its committed file (F3) keeps the path of
+        # that file after the transaction; what an application would see of that depends on its cache.  c1 starts
+        # every transaction with ghosts.
+        self.c1.cacheMinimize()
+        gc.collect(1)
 
     # ------------------------------------------------------------------ a commit, phase by phase
     def chain(self, steps):
@@ -577,8 +586,7 @@ def _is_clean(con):
     return (not con['reg'] and not _fn(con['work']) and not con['newb'] and not con['pval'] and not con['spon'])
 
 
-FULL_AFTER = ('StoreOK', 'StoreFail', 'Vote', 'Finish', 'ConnAbort', 'TpcAbort', 'OtherCommit', 'UStoreOK',
-              'UStoreFail', 'Pack', 'Init', 'TpcBegin', 'UBegin')
+FULL_AFTER = ('OtherCommit', 'Pack')
 PACK_OK = ('ok', 'redundant', 'nothing-freed', 'same-time', 'empty')
 
 
@@ -609,6 +617,16 @@ def load_behaviour(beh, atoms=('a',)):
         out.append({'name': 'Init' if raw in ('Init', None) else canon(raw), 'raw': raw,
                     'args': canon_args(raw, s['args'] or [], atoms), 'state': norm(s['state'])})
     return out
+
+
+def no_fsync():
+    """durability is not part of C13: FileStorage's module-global fsync (it tolerates None) is switched off for the
+    replays - thousands of commits from 16 processes would otherwise wait for the disk"""
+    from .. import env
+    m = env.mod('ZODB.FileStorage.FileStorage')
+    if not hasattr(m, 'fsync'):
+        raise RuntimeError('ZODB.FileStorage.FileStorage has no global fsync any more')
+    m.fsync = None
 
 
 def replay_behaviour(job):
@@ -687,7 +705,7 @@ def replay_behaviour(job):
             if got != want:
                 mismatch(i, 'outcome', ['%s: spec %s, implementation %s %s' % (fmt(s), want, got, getattr(rp, 'last_exc', ''))])
                 break
-            mm = rp.compare(s['state'], rp.project(s['state'], name in FULL_AFTER))
+            mm = rp.compare(s['state'], rp.project(s['state'], 'all' if name in FULL_AFTER else False))
             if mm:
                 mismatch(i, _what(mm), mm)
                 break
